@@ -84,6 +84,64 @@ func preconfirmedQuery(k *checker, g *chaingen.Gen) {
 	c.Probe("preconfirmed_query")
 }
 
+// raceQuery arms ONE event query of a concurrent reader to run inside the next commit the node
+// issues, right before the batch is applied (the writer - store or revert - is in the middle of its
+// operation; its in-memory bookkeeping may already have moved). The reader may be refused (a
+// transient error) or must see the chain before or after the operation - never a third thing,
+// never a silent omission. It returns the disarm function.
+func raceQuery(c *sim.Ctx, n *Node, g *chaingen.Gen, before, after []*chaingen.Block, around uint64, what string) func() {
+	t := c.T
+	if len(before) == 0 {
+		return func() {}
+	}
+	head := before[len(before)-1].B.Number
+	f := genFilter(c, g, head)
+	if around > 0 && t.Draw("race.around", 2) == 0 {
+		lo := uint64(0)
+		if around > 6 {
+			lo = around - uint64(1+t.Draw("race.lo", 6))
+		}
+		f.from, f.to = lo, minU64(head+1, around+uint64(t.Draw("race.hi", 6)))
+	}
+	ch := evChunks[t.Draw("race.chunk", len(evChunks))]
+	fired := false
+	n.FDB.Plan.BeforeCommit = func(int) {
+		if fired {
+			return
+		}
+		fired = true
+		paused := n.FDB.Paused
+		n.FDB.Paused = true
+		defer func() { n.FDB.Paused = paused }()
+		c.Fault("event_query_inside_pending_commit")
+		k := &checker{n: n, m: &Model{Chain: before}}
+		var got []flatEvent
+		if mm := k.try(func() { got, _ = k.QueryEvents(f, ch, 0, nil) }); mm != nil {
+			c.Logf("reader inside the pending %s: query %s refused: %s", what, f, mm.key)
+			c.Probe("racing_query_refused")
+			return
+		}
+		cg := canon(got)
+		wb, wa := f.scan(before), f.scan(after)
+		switch cg {
+		case canon(wb):
+			c.Probe("racing_query_saw_chain_before")
+		case canon(wa):
+			c.Probe("racing_query_saw_chain_after")
+		default:
+			kind := "mismatch"
+			if len(got) < len(wb) && len(got) < len(wa) {
+				kind = "omitted"
+			} else if len(got) > len(wb) && len(got) > len(wa) {
+				kind = "extra"
+			}
+			c.Fail("events_during_pending_write", what+":"+kind, "event query %s chunk=%d issued while the %s's batch was pending returned %d events; the chain before the operation has %d, after it %d: vs before: %s", f, ch, what, len(got), len(wb), len(wa), firstDiff(canon(wb), cg))
+		}
+		c.Logf("reader inside the pending %s: query %s -> %d events", what, f, len(got))
+	}
+	return func() { n.FDB.Plan.BeforeCommit = nil }
+}
+
 func minU64(a, b uint64) uint64 {
 	if a < b {
 		return a
@@ -101,6 +159,20 @@ func c09Short(c *sim.Ctx) {
 	maxBlocks := 4 + t.Draw("max.blocks", 16)
 	steps := 6 + t.Draw("steps", 24)
 	reorgs, warm, restarts := 0, 0, 0
+	if t.Draw("racing.reader", 2) == 1 {
+		p.aroundStore = func(b *chaingen.Block) func() {
+			if t.Draw("race.store", 3) != 0 {
+				return func() {}
+			}
+			return raceQuery(c, p.nodes[0], p.d.g, p.m.Chain, append(append([]*chaingen.Block(nil), p.m.Chain...), b), 0, "store")
+		}
+		p.aroundRevert = func() func() {
+			if t.Draw("race.revert", 2) != 0 {
+				return func() {}
+			}
+			return raceQuery(c, p.nodes[0], p.d.g, p.m.Chain, p.m.Chain[:len(p.m.Chain)-1], 0, "revert")
+		}
+	}
 	for s := 0; s < steps; s++ {
 		op := t.Draw("op", 16)
 		switch {
@@ -169,6 +241,7 @@ func c09Long(c *sim.Ctx) {
 	windows := uint64(1 + t.Draw("windows", 2))
 	boundary := windows * W // first block of the next window
 	c.Logf("long run newstate=%v pebble=%v boundary=%d", newState, usePebble, boundary)
+	racing := false
 	store := func(empty bool) {
 		o := d.opts
 		o.Empty = empty
@@ -176,7 +249,13 @@ func c09Long(c *sim.Ctx) {
 		d.opts = o
 		b := d.next(m.Head())
 		d.opts = saved
-		if err := n.StoreBlock(b); err != nil {
+		disarm := func() {}
+		if racing && t.Draw("race.store", 3) == 0 {
+			disarm = raceQuery(c, n, d.g, m.Chain, append(append([]*chaingen.Block(nil), m.Chain...), b), boundary, "store")
+		}
+		err := n.StoreBlock(b)
+		disarm()
+		if err != nil {
 			c.Fail("valid_block_rejected", "store", "[%s] valid block %d rejected: %v", backendName(n), b.B.Number, err)
 		}
 		m.Chain = append(m.Chain, b)
@@ -188,7 +267,13 @@ func c09Long(c *sim.Ctx) {
 	}
 	revert := func() {
 		h := m.Head()
-		if err := n.BC.RevertHead(); err != nil {
+		disarm := func() {}
+		if racing && t.Draw("race.revert", 2) == 0 {
+			disarm = raceQuery(c, n, d.g, m.Chain, m.Chain[:len(m.Chain)-1], boundary, "revert")
+		}
+		err := n.BC.RevertHead()
+		disarm()
+		if err != nil {
 			c.Fail("revert_failed", revertKey(h), "[%s] RevertHead of stored block %d failed: %v", backendName(n), h.B.Number, err)
 		}
 		m.Chain = m.Chain[:len(m.Chain)-1]
@@ -207,6 +292,7 @@ func c09Long(c *sim.Ctx) {
 		store(true)
 	}
 	c.Logf("filler done at height %d", len(m.Chain)-1)
+	racing = true // from here on a reader's query may run inside a writer's pending commit
 	steps := 8 + t.Draw("steps", 18)
 	crossedFwd, crossedBack := 0, 0
 	for s := 0; s < steps; s++ {
